@@ -90,6 +90,14 @@ func (m *Machine) invoke(fr *Frame, fnv Value, args []Value, res ssa.Value, c *s
 			}
 			return
 		}
+		if f.Fn.Name() == "init" && f.Fn.Pkg != nil && f.Fn.Signature.Recv() == nil && f.Fn.Parent() == nil {
+			// package initialiser of a dependency: only golem's own packages are run
+			pp := f.Fn.Pkg.Pkg.Path()
+			if !(strings.HasPrefix(pp, "github.com/fogfish/golem") || strings.HasPrefix(pp, "verif.local/")) || m.initDone[f.Fn.Pkg] {
+				return
+			}
+			m.initDone[f.Fn.Pkg] = true
+		}
 		if len(f.Fn.Blocks) == 0 || (!interpretablePkg(fnPkgPath(f.Fn)) && fnPkgPath(f.Fn) != "") {
 			unsupported("no model for external function %s", f.Fn)
 		}
